@@ -210,11 +210,6 @@ func genLife(t *rapid.T) *Scenario {
 func runScenario(t *testing.T, sc *Scenario) (st *stats, err error) {
 	if sc.Verbose > 0 {
 		defer vstat.SetGlogV(sc.Verbose)()
-		defer func() {
-			if st != nil {
-				st.label("glog-verbosity>0")
-			}
-		}()
 	}
 	switch sc.Kind {
 	case "ingest":
@@ -236,7 +231,6 @@ func part(t *testing.T, name string, gen func(*rapid.T) *Scenario) {
 	rec := vstat.New("C12", name)
 	rec.RunRapid(t, func(rt *rapid.T) {
 		sc := gen(rt)
-		sc.Verbose = rapid.SampledFrom([]int{0, 0, 0, 0, 1, 2, 3}).Draw(rt, "glog-v")
 		rec.Current(sc)
 		st, err := runScenario(t, sc)
 		rec.Case(sc, st.nontrivial(), st.list()...)
